@@ -17,6 +17,11 @@ OBLIGATIONS = [
     "KafVerif.C38.routes_nonvacuous",
     "KafVerif.C38.mux_protected_needs_session",
     "KafVerif.C38.live_session_served",
+    "KafVerif.C38.limiter_addr_independent",
+    "KafVerif.C38.limiter_decision_local",
+    "KafVerif.C38.limiter_run_local",
+    "KafVerif.C38.stored_expiry_exact",
+    "KafVerif.C38.stored_expiry_exact_run",
 ]
 BUILDS = {"h": ("root", "./cmd/verif_c38", ["C38"])}
 LEVEL_TEXT = ("Lean 4 theorems, for every configuration and every login/logout/request/tick history: a requireAuth-wrapped "
@@ -24,7 +29,9 @@ LEVEL_TEXT = ("Lean 4 theorems, for every configuration and every login/logout/r
               "(protected_needs_session, and its completeness live_session_served); per address at most `limit` admitted "
               "login attempts in every half-open window (rate_limit); every /ui/api/ route except auth/* of the route table "
               "REGENERATED from internal/console/*.go is wrapped by requireAuth, lifted through a model of ServeMux dispatch "
-              "(routes_guarded, mux_protected_needs_session).")
+              "(routes_guarded, mux_protected_needs_session).  The limiter's bookkeeping for an address is independent of every other "
+              "address and of the table size (limiter_addr_independent, limiter_decision_local, limiter_run_local); the stored "
+              "expiry of a session is exactly login instant + ttl (stored_expiry_exact, stored_expiry_exact_run).")
 LEVEL_NOTE = ("Trusted: Lean kernel; the hand-written model of auth.go + ServeMux dispatch for plain patterns; the go/ast route "
               "extractor; the differential run of the real handlers (own authManager on shifted timestamps, and the real NewMux "
               "in real time) against the model; generateToken (crypto/rand) never repeats.")
@@ -33,6 +40,7 @@ ASSUMPTIONS = [
     "session tokens from crypto/rand are unguessable and never repeat (tokens are abstract fresh ids in the model)",
     "time is a Nat clock in seconds; the harness shifts stored timestamps backwards instead of replacing time.Now; generated ticks never put a request exactly on a session-expiry boundary (wall-clock jitter)",
     "net/http ServeMux dispatch for plain (method-less, wildcard-less) patterns on clean paths is modelled as longest-match; unclean paths are only monitored, not compared",
+    "sub-second behaviour is observed, not modelled: every login's STORED expiry must lie in [t_before+ttl, t_after+ttl] (wall/monotonic clock read around the handler call) and a request issued right after a really elapsed 1 s ttl must be refused",
     "sync.Mutex gives mutual exclusion (handlers are atomic steps); concurrent requests are not explored here",
     "the sliding window is half-open (t-w, t] as coded",
 ]
@@ -75,6 +83,8 @@ def extract_routes(ck, binary):
             rows.append((json.loads(m.group(1)), m.group(2) == "1", m.group(3) == "1", m.group(4)))
         elif l.startswith("requireAuthDecls"):
             decls = int(l.split()[1])
+        elif l.startswith("limiterHits"):
+            ck.cov["distribution"]["src_" + l.split()[0]] = int(l.split()[1])
     if not rows:
         raise RuntimeError("no routes extracted")
     if decls != 1:
@@ -165,6 +175,87 @@ def gen_auth_case(rng, defaults, first=False):
     return ops
 
 
+def gen_many_case(rng, defaults, n_addr, first=False):
+    """r3: more client addresses than any plausible table bound, with probing clients whose admitted
+    attempts straddle the window edge while the other addresses flood in.  The limiter's decision for
+    an address must depend on that address's own attempts only (limiter_addr_independent)."""
+    dttl, dlim, dwin = defaults
+    lim, win = (dlim, dwin) if first else rng.choice([(dlim, dwin), (3, 60), (5, 30), (2, 20), (4, 40)])
+    if win < 20 or lim < 2:
+        lim, win = 3, 60
+    ops = ["new auth 1 600 %d %d" % (lim, win)]
+
+    def att(ip, good=None):
+        good = rng.chance(1, 3) if good is None else good
+        ops.append("login %d %d POST ok ok %s" % (ip, rng.range(1024, 65000), "ok" if good else "bad"))
+
+    probes = [1, 2, 3][:rng.range(2, 3)]
+    inside = {}
+    for ip in probes:               # oldest attempts at t=0
+        k_old = 1 if ip == 1 else rng.range(1, max(1, lim - 1))
+        inside[ip] = max(0, min(lim, lim - k_old + (0 if ip == 1 else rng.range(-1, 1))))
+        for _ in range(k_old):
+            att(ip)
+    a = rng.range(win // 2, win - 1)
+    ops.append("tick %d" % a)
+    for ip in probes:               # a batch that stays inside the window during the flood
+        for _ in range(inside[ip]):
+            att(ip)
+    extra = rng.below(3)
+    ops.append("tick %d" % (win - a + extra))   # the oldest attempts have just left the window
+    order = list(range(1000, 1000 + n_addr))
+    for i in range(len(order) - 1, 0, -1):
+        j = rng.below(i + 1)
+        order[i], order[j] = order[j], order[i]
+    marks = sorted(set(rng.below(n_addr) for _ in range(6)))
+    for i, ip in enumerate(order):
+        att(ip)
+        if rng.chance(1, 40):
+            att(ip)
+        if i in marks:
+            r = rng.below(3)
+            if r == 0:
+                ops.append("preq %s" % cookie_ref(rng, 3))
+            elif r == 1:
+                att(rng.choice(order[:i + 1]))
+            else:
+                ops.append("sess %s" % cookie_ref(rng, 3))
+    for ip in probes:               # after the flood: the window still holds the inside batch
+        for _ in range(lim + 1):
+            att(ip)
+    ops.append("tick %d" % (a - extra))         # the inside batch is exactly at the cutoff now
+    for ip in probes + [order[0], order[-1]]:
+        for _ in range(rng.range(1, lim + 1)):
+            att(ip)
+    ops.append("tick %d" % win)
+    for ip in probes:
+        att(ip, good=True)
+    ops.append("preq t0")
+    return ops
+
+
+def gen_expiry_case(rng):
+    """r3: real-time observations.  `phase` sleeps to a sub-second phase of the wall clock so that
+    logins happen early / just past the middle / late in a second (login prints exp=ok only when the
+    STORED expiry lies in [before+ttl, after+ttl]); `await` lets a 1 s ttl really elapse and issues
+    the request right after login+ttl.  Earlier tokens are never used again before an await (real
+    time passes in `phase` while the model clock stands still)."""
+    ops = ["new auth 1 1 8 60"]
+    n = 0
+    for ph in [rng.range(40, 180), rng.range(510, 640), rng.range(820, 960)]:
+        ops.append("phase %d" % ph)
+        ops.append("login %d %d POST ok ok ok" % (n + 1, rng.range(1024, 65000)))
+        n += 1
+    for ph in [rng.range(560, 700), rng.range(720, 900)]:
+        ops.append("phase %d" % ph)
+        ops.append("login %d %d POST ok ok ok" % (n + 1, rng.range(1024, 65000)))
+        ops.append("await t%d" % n)
+        n += 1
+    ops.append("sess t%d" % (n - 1))
+    ops.append("preq t0")
+    return ops
+
+
 METHODS = ["GET", "GET", "POST", "DELETE", "PUT", "HEAD"]
 
 
@@ -239,7 +330,7 @@ def agree(m, i, enabled):
     mf, jf = m.split(), i.split()
     if not mf or not jf or mf[0] != jf[0]:
         return False
-    if mf[0] in ("preq", "req"):
+    if mf[0] in ("preq", "req", "await"):
         mc, ic = mf[1], jf[1]
         if mc == "open":
             return True
@@ -263,8 +354,13 @@ def is_protected_path(path):
     return c.startswith("/ui/api/") and not c.startswith("/ui/api/auth/") and c != "/ui/api/auth"
 
 
-def monitor(ops, out, defaults):
-    """The property itself on the implementation's lines.  Returns (index, fingerprint, what) or None."""
+EXP_FP = "session-expiry-not-login-plus-ttl"
+
+
+def monitor(ops, out, defaults, ignore=()):
+    """The property itself on the implementation's lines.  Returns (index, fingerprint, what) or None.
+    `ignore`: fingerprints already reported (only EXP_FP is skippable) so that an independent later
+    observation in the same case (the real-time `await` probe) is still looked at."""
     f0 = ops[0].split()
     mode, en = f0[1], f0[2] == "1"
     kv = dict(x.split("=", 1) for x in out[0].split()[1:] if "=" in x)
@@ -295,6 +391,10 @@ def monitor(ops, out, defaults):
                     return i, "login-token-anomaly", "login answered %s" % cls
                 live[ntok] = now + ttl
                 ntok += 1
+                if "exp=late" in r and EXP_FP not in ignore:
+                    return i, EXP_FP, (
+                        "login %r stored a session expiry later than login instant + ttl (%d s): the token stays "
+                        "accepted after its lifetime" % (op, ttl))
                 if not (f[3] == "POST" and f[4] == "ok" and f[5] == "ok" and f[6] == "ok") or not en:
                     return i, "session-issued-without-valid-login", "login %r issued a session" % op
             if "cookie-on-failure" in o:
@@ -311,7 +411,9 @@ def monitor(ops, out, defaults):
                 t = resolve(f[2])
                 if t is not None:
                     live.pop(t, None)
-        elif f[0] in ("preq", "req"):
+        elif f[0] in ("preq", "req", "await"):
+            if f[0] == "await":
+                now += ttl + 1      # the harness let ttl really elapse before the request (and tops up to ttl+1 s)
             cookie = f[-1]
             if f[0] == "req" and not is_protected_path(f[2]):
                 continue
@@ -343,7 +445,7 @@ def _fails(ck, binary, ops, fp, defaults):
     _, io, crash = run_impl(ck, binary, ops, "dd")
     if crash:
         return False
-    m = monitor(ops, io, defaults)
+    m = monitor(ops, io, defaults, ignore=() if fp == EXP_FP else (EXP_FP,))
     return m is not None and m[1] == fp
 
 
@@ -351,11 +453,17 @@ def _report(ck, binary, ops, io, mon, defaults):
     i, fp, what = mon
     if fp in [v["fingerprint"] for v in ck.violations] or fp in [h["fingerprint"] for h in ck.known_hits]:
         return   # one minimised replay per fingerprint
-    budget = [120]
+    # real-time cases replay slowly; the many-addresses cases cannot shrink below the table bound anyway
+    budget = [16 if any(o.startswith(("phase", "await")) for o in ops) else 30 if len(ops) > 400 else 120]
 
     def fails(cand):
         budget[0] -= 1
         return budget[0] >= 0 and _fails(ck, binary, [ops[0]] + cand, fp, defaults)
+    if fp == EXP_FP and not any(o.startswith("phase") for o in ops[:i + 1]):
+        # pin the sub-second phase of the offending login so that the replay does not depend on when it is run
+        pinned = ops[:i] + ["phase 750"] + ops[i:]
+        if _fails(ck, binary, pinned[:i + 2], fp, defaults):
+            ops, i = pinned, i + 1
     small = lib.ddmin(ops[1:i + 1], fails)
     ck.violation(fp, what, {"ops": [ops[0]] + small, "expected": "property monitor true on every line", "actual": what})
 
@@ -393,6 +501,17 @@ def run(ck):
         cases.append(gen_auth_case(ck.rng.fork(), defaults, first=(i == 0)))
     for i in range(nmux):
         cases.append(gen_mux_case(ck.rng.fork(), defaults, routes, i if i < 4 else 1))
+    many = [1100 + ck.rng.below(200), 1300 + ck.rng.below(600)] if ck.quick() else [1100, 2100, 4200, 1500, 1200]
+    d = ck.cov["distribution"]
+    if d.get("src_limiterHitsDeletes", 0) or d.get("src_limiterHitsWritesOutsideAllow", 0):
+        # the source prunes / rewrites the limiter table somewhere the model does not: not an alarm by itself
+        # (a correct prune is unobservable), but search wider table sizes for an address that loses its history
+        many += [2100 + ck.rng.below(100), 4200 + ck.rng.below(100)]
+    for i, n_addr in enumerate(many):
+        cases.append(gen_many_case(ck.rng.fork(), defaults, n_addr, first=(i == 0)))
+        ck.cov["distribution"]["max_client_addresses"] = max(ck.cov["distribution"].get("max_client_addresses", 0), n_addr)
+    for i in range(1 if ck.quick() else 6):
+        cases.append(gen_expiry_case(ck.rng.fork()))
     all_ops, bounds = [], []
     for ops in cases:
         bounds.append((len(all_ops), len(all_ops) + len(ops)))
@@ -419,10 +538,14 @@ def run(ck):
         ck.count("login_ok", sum(1 for o in io if o.startswith("login ok")))
         ck.count("ticks", sum(1 for o in ops if o.startswith("tick")))
         ck.count("mode_" + ops[0].split()[1])
+        ck.count("stored_expiry_checked", sum(1 for o in io if " exp=ok" in o))
+        ck.count("real_time_expiry_probes", sum(1 for o in io if o.startswith("await")))
         ck.case(tuple(ops), nontrivial=(served > 0 and rejected > 0 and limited > 0),
                 sample={"ops": ops[:6], "impl": io[:6]})
         ck.cov["traces_validated_against_impl"] += 1
         mon = monitor(ops, io, defaults)
+        if mon is not None and mon[1] == EXP_FP and EXP_FP in [v["fingerprint"] for v in ck.violations]:
+            mon = monitor(ops, io, defaults, ignore=(EXP_FP,)) or mon
         if mon is not None:
             _report(ck, binary, ops, io, mon, defaults)
             continue
